@@ -19,13 +19,13 @@ def main() -> int:
     ap.add_argument('--seed', type=int, default=int(os.environ.get('VERIF_SEED', '20260930')))
     args = ap.parse_args()
     prop = args.prop.upper()
-    try:
-        mod = importlib.import_module(f'harness.{prop.lower()}')
-    except ModuleNotFoundError as err:
-        print(f"no check for {prop}: {err}", file=sys.stderr)
+    if not (common.VERIF / 'harness' / f'{prop.lower()}.py').exists():
+        print(f"no check for {prop}", file=sys.stderr)
         return 2
     run = common.Run(prop, args.tier, args.seed)
     try:
+        # importing the harness module imports edzed from /repo
+        mod = importlib.import_module(f'harness.{prop.lower()}')
         common.ensure_build()
         run.proof = common.proof_status(prop)
         run.add_obligation(True, len(run.proof['theorems']))
@@ -35,12 +35,35 @@ def main() -> int:
             old.unlink()          # replay files of earlier runs of this check
         mod.check(run)
         return run.finish()
+    except common.HarnessProblem as err:
+        return unobservable(run, args, str(err))
     except common.Broken as err:
         print(f"BROKEN CHECK {prop}: {err}", file=sys.stderr)
         return 2
     except Exception:
+        tb = traceback.format_exc()
+        sys.stderr.write(tb)
+        return unobservable(run, args, tb)
+
+
+def unobservable(run, args, text: str) -> int:
+    """The harness could not drive or observe the implementation (on the unchanged tree this does not
+    happen): the correspondence between model and code no longer checks.  Reported as a violation
+    without a failing input, naming the correspondence; the text of the problem is the replay."""
+    if args.replay:
+        print(text[-3000:])
+        print(f"VIOLATION property={run.prop} replay={args.replay} no-failing-input-found")
+        return 1
+    run.violations = [v for v in run.violations]      # keep what was found before the problem
+    run.violation('harness', dict(correspondence=f"harness/{run.prop.lower()}.py drives edzed and feeds "
+                                  f"coq/Cases/Cases_{run.prop}_*.v; it could not observe the implementation"),
+                  "the correspondence check could not run the implementation as the model expects: "
+                  + text[-3000:], clause='implementation_not_observable', concrete=False)
+    try:
+        return run.finish()
+    except Exception:          # noqa
         traceback.print_exc()
-        print(f"BROKEN CHECK {prop}: internal error", file=sys.stderr)
+        print(f"BROKEN CHECK {run.prop}: internal error", file=sys.stderr)
         return 2
 
 
